@@ -34,6 +34,16 @@ func (sr *scenRun) evaluate(eps []*endpoint, reliable bool) {
 	if sc.Plain {
 		tag = "control-plain-" + tag
 	}
+	if sc.PlainPeers > 0 {
+		tag = fmt.Sprintf("mixed-profiles-%s+%s+%dxplain-tcp", tag, strings.Join(sc.Extra, "+"), sc.PlainPeers)
+		// the mixed scenarios are only worth something if the plain-profile readers were really
+		// served (in clear) while the secure ones were
+		run.Count("mixed:frames-to-plain-profile-peers(exempt-from-cleartext-monitor)", sr.clear.exempt.Load())
+		run.Count("mixed:frames-to-plain-profile-peers-with-needle", sr.clear.exemptHits.Load())
+		if sr.clear.exempt.Load() == 0 {
+			run.Fatal("scenario %s: the server tap saw no frame going to a plain-profile peer", sc.Name)
+		}
+	}
 	run.Count("scenarios:"+tag, 1)
 	run.Distinct(fmt.Sprintf("sc|%s|%v|%d", tag, sc.Formats, len(sc.Joiners)))
 
@@ -114,21 +124,35 @@ func (sr *scenRun) evaluate(eps []*endpoint, reliable bool) {
 			continue // the client is the sender here; the server ingest is the receiver
 		}
 		fs, st := rig.Check(sr.traffic, e.rd)
-		run.Count("deliveries:"+tag, int64(st.Deliveries))
+		if e.plain != nil {
+			// plain-profile peer: the frames it read must carry the written packets, in clear
+			run.Count("mixed:deliveries-to-plain-profile-peers", int64(st.Deliveries))
+			run.Count("mixed:frames-read-by-plain-profile-peers", e.plain.frames.Load())
+			if n := e.plain.bad.Load(); n > 0 {
+				b1, _ := e.plain.bad1.Load().(string)
+				sr.fail("interop/plain-tcp/play/frame-not-rtp-or-rtcp", fmt.Sprintf("endpoint %s negotiated RTP/AVP/TCP inside TLS and received %d frames that are neither RTP nor RTCP packets (first: %s)", e.name, n, b1), nil)
+			}
+		} else {
+			run.Count("deliveries:"+tag, int64(st.Deliveries))
+		}
 		run.Count("must-deliver-checked", int64(st.MustDeliver))
 		run.Count("endpoints-checked", 1)
 		if st.Deliveries == 0 && !sc.Tamper {
-			sr.fail("interop/"+sc.Transport+"/"+sc.Kind+"/nothing-delivered", fmt.Sprintf("endpoint %s received no packet at all", e.name), nil)
+			sr.fail("interop/"+e.proto+"/"+sc.Kind+"/nothing-delivered", fmt.Sprintf("endpoint %s received no packet at all", e.name), nil)
 		}
 		for _, f := range fs {
 			if sc.Tamper && (strings.HasPrefix(f.Key, "missing-packets") || f.Key == "delivered-packet-not-written") {
 				continue // decided by the tamper oracle below
 			}
-			sr.fail("interop/"+f.Key, fmt.Sprintf("endpoint %s (%s %s): %s", e.name, sc.Kind, sc.Transport, f.What), f.Detail)
+			key := "interop/" + f.Key
+			if e.plain != nil {
+				key = "interop/plain-tcp/" + f.Key // a reader served in clear: not the secure path
+			}
+			sr.fail(key, fmt.Sprintf("endpoint %s (%s %s): %s", e.name, sc.Kind, e.proto, f.What), f.Detail)
 		}
 		dec := e.decErr.Load()
 		d1, _ := e.decFirst.Load().(string)
-		if e.pc == nil { // server-side endpoint
+		if e.serverSide() {
 			dec = sr.srvDec.Load()
 			d1, _ = sr.srvDec1.Load().(string)
 		}
@@ -158,6 +182,9 @@ func (sr *scenRun) evaluate(eps []*endpoint, reliable bool) {
 				sr.fail("tamper/"+sc.Transport+"/"+cls+"/delivered", fmt.Sprintf("endpoint %s: an SRTCP packet altered in transit (%s) was delivered to OnPacketRTCP", e.name, cls), map[string]any{"app_id": id})
 			case !ok || !bytes.Equal(sent, data):
 				key := "interop/rtcp-app-altered"
+				if e.plain != nil {
+					key = "interop/plain-tcp/rtcp-app-altered"
+				}
 				if sc.Tamper {
 					key = "tamper/" + sc.Transport + "/rtcp-altered-packet-delivered"
 					if len(data) >= 36 {
@@ -172,12 +199,12 @@ func (sr *scenRun) evaluate(eps []*endpoint, reliable bool) {
 		nSent := len(sr.appSent)
 		sr.appMu.Unlock()
 		if !sc.Tamper && nSent > 20 && len(apps) == 0 {
-			sr.fail("interop/"+sc.Transport+"/"+sc.Kind+"/rtcp-app-never-delivered", fmt.Sprintf("endpoint %s: none of %d RTCP APP packets arrived", e.name, nSent), nil)
+			sr.fail("interop/"+e.proto+"/"+sc.Kind+"/rtcp-app-never-delivered", fmt.Sprintf("endpoint %s: none of %d RTCP APP packets arrived", e.name, nSent), nil)
 		}
 
 		if !sc.Tamper {
-			if dec > 0 && !sc.Plain {
-				sr.fail("interop/"+sc.Transport+"/"+sc.Kind+"/decode-error-without-tampering",
+			if dec > 0 && !sc.Plain && e.plain == nil {
+				sr.fail("interop/"+e.proto+"/"+sc.Kind+"/decode-error-without-tampering",
 					fmt.Sprintf("endpoint %s (joined at packet %d of flow 0): %d decode errors on an untampered secure session (first: %s)", e.name, e.rocAt, dec, d1),
 					map[string]any{"endpoint": e.name, "first_error": d1})
 			}
@@ -191,7 +218,11 @@ func (sr *scenRun) evaluate(eps []*endpoint, reliable bool) {
 	run.Count("server-decode-errors:"+tag, sr.srvDec.Load())
 	// (multicast is excluded: reader and server share one IP address here, so the server's multicast
 	// RTCP socket also receives its own looped-back reports and attributes them to the reader)
-	if n := sr.srvDec.Load(); n > 0 && !sc.Tamper && !sc.Plain && sc.Kind == "play" && sc.Transport != "mcast" {
+	hasMcast := false
+	for _, e := range eps {
+		hasMcast = hasMcast || e.proto == "mcast"
+	}
+	if n := sr.srvDec.Load(); n > 0 && !sc.Tamper && !sc.Plain && sc.Kind == "play" && !hasMcast {
 		d1, _ := sr.srvDec1.Load().(string)
 		sr.fail("interop/"+sc.Transport+"/play/server-decode-error-without-tampering",
 			fmt.Sprintf("the server signalled %d decode errors for packets sent by its readers on an untampered secure session (first: %s)", n, d1), map[string]any{"kinds": sr.srvEP.decodeErrorKinds()})
